@@ -377,11 +377,15 @@ func runC17(r *rt.Run, tier string) {
 		simos.Install(fsys)
 		defer simos.Install(nil)
 	}
+	var rdT io.Reader = rd
+	if kind == "none" && !viaFile {
+		rdT = typedReader(r, "changelog", data, rd)
+	}
 	task := r.Solo("parser", func() {
 		switch api {
 		case "Parse":
 			var g changelog.ChangelogEntries
-			g, err = changelog.Parse(rd)
+			g, err = changelog.Parse(rdT)
 			got = g
 		case "ParseFile":
 			var g changelog.ChangelogEntries
@@ -398,7 +402,7 @@ func runC17(r *rt.Run, tier string) {
 				r.Violate("C17/nil-entry-without-error", api, "ParseFileOne returned neither an entry nor an error")
 			}
 		default:
-			got, err = clParseOneLoop(rd)
+			got, err = clParseOneLoop(rdT)
 		}
 	})
 	if viaFile {
